@@ -272,7 +272,7 @@ Definition try_operand (regs : list str) (o : opcfg) (txt : operand) : pres :=
               match s, rest with
               | (OAdd | OSub), _ :: _ =>
                   match offset with
-                  | None => PAbort                                   (* "An offset was provided ... when none was expected" *)
+                  | None => PNo                                      (* an offset for an operand configured without one: no match (D42) *)
                   | Some a =>
                       let ats := match s with OSub => TNum 0 :: TOp OSub :: rest | _ => rest end in
                       match parse_tokens ats with
@@ -440,7 +440,7 @@ Fixpoint match_specific_ops (regs : list str) (cfgs : list opcfg) (operands : li
           end
       | _ =>
           match operands with
-          | [] => inr false                              (* "instruction had too few operand present": return None *)
+          | [] => inl None                               (* too few operands for this configuration: try the next one (D41) *)
           | t :: ts =>
               match try_operand regs c t with
               | PMatch m => match_specific_ops regs rest ts nulls (m :: acc)
